@@ -212,9 +212,27 @@ func (x *B[T]) chanView(c int) signal.C[T] {
 		x.chans = map[int]signal.C[T]{}
 	}
 	v := x.b.Channel(c)
+	switch chanViewMode {
+	case 1:
+		// a view written as a literal: C's Buffer field is exported, the zero channel number is channel 0
+		if c == 0 {
+			v = signal.C[T]{Buffer: x.b}
+		}
+	case 2:
+		// a view of channel c taken from another buffer (other channel count) and pointed at this one
+		if c >= 0 {
+			other := signal.Alloc[T](signal.Allocator{Channels: c + 3, Length: 1, Capacity: 1})
+			v = other.Channel(c)
+			v.Buffer = x.b
+		}
+	}
 	x.chans[c] = v
 	return v
 }
+
+// chanViewMode selects how the harness obtains channel views: 0 Buffer.Channel, 1 composite literal for
+// channel 0, 2 a view of another buffer retargeted through the exported Buffer field.
+var chanViewMode int
 func (x *B[T]) KeptChanSample(c, i int) uint64 { return enc(x.chanView(c).Sample(i), x.k) }
 func (x *B[T]) KeptChanSet(c, i int, v uint64) { x.chanView(c).SetSample(i, dec[T](v, x.k)) }
 // the channel argument of C.BufferIndex is not the view's channel on purpose (the view addresses its own
